@@ -86,6 +86,12 @@ def programs(tier):
                     out.append(("proj", done, ("a", "b"), o))
                 out += [("sel", done, K2, o), ("sort", done, ((meprogs.B, False), (meprogs.A, True), (meprogs.C, True)), o),
                         ("xfer", ("sel", done, K2, o), back) if o[2] is False else ("mat", ("sel", done, K2, o), "mp")]
+    # SQL-side results that are statically empty through an *operation* (not a leaf, transfer or materialization) downstream of a
+    # transfer or a materialization that has no payload yet: the processed tree must still be evaluable by the SQL engine
+    for src in (("xfer", X, "sq"), ("mat", ("xfer", X, "sq"), "me"), ("mat", ("sel", S, ("gt", meprogs.A, ("lit", "$k1"))), "me")):
+        for emp in (("slice", src, 0, 0), ("sel", src, ("plit", False)), ("slice", src, 3, None), ("join", src, ("leaf", "0s"), None),
+                    ("dedup", ("slice", src, 0, 0)), ("proj", ("sel", src, ("plit", False)), ("a",))):
+            out += [emp, ("xfer", emp, "it1"), ("chain", emp, S) if emp[0] != "proj" else ("dedup", emp)]
     selS = ("sel", S, ("gt", meprogs.A, ("lit", "$k1")))
     selX = ("sel", X, ("gt", meprogs.A, ("lit", "$k1")))
     for empty, live, other in ((("leaf", "0s"), selS, "it1"), (("leaf", "0i"), selX, "sq"), (("leaf", "0i"), selX, "it2")):
